@@ -266,6 +266,7 @@ def run(ctx):
         raise AnalysisError("get_func_source has no return", "get_func_source")
 
     _c17_6(ctx, repo)
+    _c17_7(ctx, repo)
 
 def _is_task_receiver(mod, fn, recv: str) -> bool:
     """Receiver is a Task object: annotated parameter, or assigned from a registry lookup / named *task*."""
@@ -363,4 +364,23 @@ def _c17_6(ctx, repo):
         "`f.options(cache=False).is_valid()` is False right after construction (and after unpickling) and a task that returns such a task value is re-executed on every run",
         m.rel,
         init.lineno,
+    )
+
+
+def _c17_7(ctx, repo):
+    """C17.7: validity of an unpickled task value reflects the registered task's version."""
+    m = repo.mod(TASK)
+    r7 = ctx.rule("C17.7", "an unpickled versioned task is validated against the version of the registered task", floor=1)
+    ss = m.func("Task.__setstate__")
+    iv = m.func("Task.is_valid")
+    from_state = any(isinstance(a, ast.Assign) and src(a.targets[0]) == "self.version" and "state[" in src(a.value) for a in ast.walk(ss))
+    from_registry = any(isinstance(a, ast.Assign) and src(a.targets[0]) == "self.version" and "_task." in src(a.value) for a in ast.walk(ss))
+    compares = any(isinstance(c, ast.Compare) and ".version" in src(c) and "self.version" in src(c) for c in ast.walk(iv))
+    r7.check(
+        (not from_state) or from_registry or compares,
+        f"{m.rel}:Task.is_valid:version-vs-registry",
+        "Task.__setstate__ restores `version` from the pickled state and Task.is_valid re-hashes with it: for a versioned task the re-computed hash uses pickled data only, so a task value pickled at "
+        "version='1' stays is_valid() after the registered task is bumped to '2' (or removed) -- a cached result containing it is replayed although the task it names has changed",
+        m.rel,
+        iv.lineno,
     )
